@@ -343,6 +343,9 @@ func (r *Recorder) Record(conn net.Conn, m *ConnModel, advance bool) *RecState {
 		maxb = 4096
 	}
 	for {
+		// a scheduling point right before the draw: reads through pipes (tee branch)
+		// do not park, and two goroutines must never draw from the tape concurrently
+		r.E.S.Park(r.Name + ".draw")
 		sz := 1 + r.E.S.Choose(maxb, "rec-buf")
 		buf := make([]byte, sz)
 		n, err := conn.Read(buf)
